@@ -627,11 +627,11 @@ func C09(seed uint64, run int) *spec.Spec {
 	}
 	crowd := false
 	if kind != 0 && !g.wide && !g.exact && r.Chance(0.035) {
-		// a crowd: 9-14 callers with one to three cheap constructions each, all inside the library at once - what a
+		// a crowd: 9-12 callers with one to three cheap constructions each, all inside the library at once - what a
 		// server does, and the only way to exhaust a fixed-size pool, a semaphore or a set of per-CPU slots
 		crowd = true
 		big = false
-		nTasks = r.Range(9, 14)
+		nTasks = r.Range(9, 12)
 		g.focus = r.PickS([]string{"lyear", "lyear", "lunar", "lmonth", "solar"})
 	}
 	sweep := ""
